@@ -547,11 +547,15 @@ class UfhController(Parent, DeviceHeat):  # UFC (02):
         if self._setpoints is None:
             return None
 
+        payload = self._setpoints.payload
+        if isinstance(payload, dict):  # a single circuit, e.g. 22C9|008, is not an array
+            payload = [payload]
+
         return {
             c[SZ_UFH_IDX]: {
                 k: v for k, v in c.items() if k in ("temp_low", "temp_high")
             }
-            for c in self._setpoints.payload
+            for c in payload
         }
 
     @property  # id, type
